@@ -6,6 +6,7 @@
   (TwProofs/Lemmas/LexPos.lean, LexSpan.lean).
 -/
 import TwProofs.Lemmas.LexSpan
+import TwProofs.Lemmas.LexLit
 
 namespace Tw.C19
 open Tw Tw.Lx
@@ -127,7 +128,27 @@ theorem contains_iff_covered (inp : Bytes) (t : Token) (a n : Nat) (hc : Covers 
       · have : i = a + n - 1 := by omega
         rw [this] at hlt; exact posLt_irrefl _ hlt
 
+/-- **the whole statement about the token list of an input** (`FullTiled`): the tokens come in
+    source order without overlap; each covers `[a', a' + n)` with its start the position of byte
+    `a'` and its end the position of byte `a' + n - 1`; its literal — unless it is a string (quotes
+    and escapes removed) or a text token (escaping backslashes removed) — is exactly these bytes;
+    between two tokens, and before the closing EOF, lie only white space and comments (`Gap`);
+    EOF sits at the position just past the last byte. -/
+theorem token_list_is_fully_tiled (inp : Bytes) (r : LexResult) (h : tokenize inp = some r) : FullTiled inp 0 r.toks :=
+  tokenize_fullTiled inp r h
+
+/-- one token: its literal is the text it covers (every token kind but strings and text) -/
+theorem token_literal_is_covered_text (s : Lx) (hne : s.rest ≠ []) (t : Token) (h : (stepAt s).1 = .tok t)
+    (hs : t.ty ≠ .STR) (hh : t.ty ≠ .HTML) : ∃ n, t.lit = s.rest.take n ∧ (stepAt s).2.rest = s.rest.drop n :=
+  stepAt_lit s hne t h hs hh
+
 /-! non-vacuity: a concrete input with multi-line text, a string with a newline, a comment -/
+
+example : Gap (b " \n\t{{-- a --}} {{-- b") := by
+  have h1 : Gap (b "{{-- b") := Gap.opened (b " b")
+  have h2 : Gap (b " {{-- b") := Gap.ws 32 _ (by decide) h1
+  have h3 := Gap.comment (b " a ") _ h2
+  exact Gap.ws 32 _ (by decide) (Gap.ws 10 _ (by decide) (Gap.ws 9 _ (by decide) h3))
 
 example : (tokenize (b "a\n{{ \"x\ny\" }}{{-- c --}}z")).isSome = true := by decide
 
